@@ -10,6 +10,32 @@ BASELINE_OFF = ("cd /repo && env -u SYM_METANET_VERIF /venv/bin/python -m pytest
 
 # id -> (technique, level text, level note, design ref)
 CHECKS = {
+    "C01": (
+        "exhaustive enumeration of network programs (shapes up to isomorphism x configurations within a deviation "
+        "bound) x value vectors (deviation-bounded over branch-boundary alphabets), every real step compared "
+        "component-wise with a reference METANET model",
+        "Bounded exhaustive exploration on the implementation: every valid topology with <=3 nodes/<=4 links (quick) "
+        "or <=4 nodes/<=5 links (thorough), every element kind in every position, 1..3 segments, VSL sets, delta/phi "
+        "present and absent; each network is stepped by the real NumPy engine and evaluated through the real compiled "
+        "CasADi function on the base vectors and all single (thorough: pair, local full product) excursions, and every "
+        "next density/speed/queue is compared with the reference model. Branch coverage of every min/max/if is "
+        "measured and reported.",
+        "Trusts the reference model mc/refmodel.py (plain-float transcription of eqs. 3.1-3.11 and the documented "
+        "boundary laws); excludes the model's own 0/0, the documented log-ratio guard region and lane gains; values "
+        "between alphabet points are not covered; tolerance 1e-9.",
+        "DESIGN.md section 3, C01",
+    ),
+    "C07": (
+        "exhaustive enumeration of valid network programs x engines x symbol types x compactness levels x options x "
+        "boundary value vectors on the real code",
+        "Bounded exhaustive exploration on the implementation: every valid topology within the bound and every "
+        "configuration with <=1 deviating element is validated, stepped with NumPy (user arrays of both scalar "
+        "shapes, the engine's own variables) and CasADi SX/MX, compiled at compactness 0/1/2 with and without extra "
+        "outputs and with each positivity option, and evaluated on all single-excursion boundary vectors; oracle: no "
+        "exception, next.shape == state.shape, finite outputs unless the reference model itself meets 0/0.",
+        "Networks above (3,3) quick / (3,4)+(4,4) thorough are not built; infinite limits are C18's business.",
+        "DESIGN.md section 3, C07",
+    ),
     "C06": (
         "explicit enumeration of all labelled graphs within a size bound, built on the real Network through two API "
         "histories, is_valid compared with an independent nine-condition predicate on every graph",
